@@ -22,10 +22,12 @@ Inductive kind := KSys | KAdm | KRW | KRO | KNone.
 Inductive hdr := HNone | HSess | HTok | HTok2.
 (* database: the one the user was granted permission on, another one, systemdb, none selected *)
 Inductive dbsel := DOwn | DOther | DSystem | DNone.
-(* what happened after the credential was issued: nothing, it expired (session guard / token
-   expiration), the user was deactivated (SetActiveUser), the user's permission was changed
-   (ChangePermission) *)
-Inductive sstate := SValid | SExpired | SDeact | SReperm.
+(* what happened after the credential was issued: nothing; it expired (session guard / token
+   expiration); the user was deactivated (SetActiveUser); the user's permission on "own" was changed
+   by ChangePermission: REVOKEd (SReperm), replaced by a GRANT of the next lower level (SLowered:
+   admin -> read-write, read-write -> read) or of the next higher level (SRaised: none -> read,
+   read -> read-write, read-write -> admin) *)
+Inductive sstate := SValid | SExpired | SDeact | SReperm | SLowered | SRaised.
 
 Record cx := mk_cx {
   cx_cfg : cfg; cx_kind : kind; cx_hdr : hdr;
@@ -39,7 +41,8 @@ Definition cfg_eqb (a b : cfg) := match a, b with CfgAuth, CfgAuth | CfgMaint, C
 Definition kind_eqb (a b : kind) := match a, b with KSys, KSys | KAdm, KAdm | KRW, KRW | KRO, KRO | KNone, KNone => true | _, _ => false end.
 Definition hdr_eqb (a b : hdr) := match a, b with HNone, HNone | HSess, HSess | HTok, HTok | HTok2, HTok2 => true | _, _ => false end.
 Definition dbsel_eqb (a b : dbsel) := match a, b with DOwn, DOwn | DOther, DOther | DSystem, DSystem | DNone, DNone => true | _, _ => false end.
-Definition sstate_eqb (a b : sstate) := match a, b with SValid, SValid | SExpired, SExpired | SDeact, SDeact | SReperm, SReperm => true | _, _ => false end.
+Definition sstate_eqb (a b : sstate) := match a, b with SValid, SValid | SExpired, SExpired | SDeact, SDeact | SReperm, SReperm | SLowered, SLowered | SRaised, SRaised => true | _, _ => false end.
+Definition permission_changed (st : sstate) : bool := match st with SReperm | SLowered | SRaised => true | _ => false end.
 Definition verdict_eqb (a b : verdict) := match a, b with Through, Through | Refused, Refused => true | _, _ => false end.
 
 Definition auth_on (c : cfg) := cfg_eqb c CfgAuth.
@@ -90,18 +93,45 @@ Definition which_permission (k : kind) (db : dbsel) : N :=
 (* ------------------------------------------------------------------ credentials *)
 
 (* What the server still holds for the presented credential.
-   Sessions: the session map entry is deleted by the guard on expiry and by CloseSessionsForUser in
-   SetActiveUser / ChangePermission / ChangeSQLPrivileges / ChangePassword.
+   Sessions: the session map entry is deleted by the guard on expiry and by CloseSessionsForUser.
    Tokens: verifyToken checks signature (per-user key pair kept until logout/password change) and
-   expiration; then the user name must be in the logged-in map.  SetActiveUser / ChangePermission call
-   removeUserFromLoginList, which DECREMENTS a per-user login counter and deletes the entry only when
-   it reaches zero: with a second live login the entry, holding the user data as of login time, stays. *)
+   expiration; then the user name must be in the logged-in map.  removeUserFromLoginList DECREMENTS a
+   per-user login counter and deletes the entry only when it reaches zero: with a second live login
+   the entry, holding the user data as of login time, stays.
+   WHETHER SetActiveUser / ChangePermission make these two calls for every request is read off the
+   generated gate table (steps AInvSess / AInvLogin that apply unconditionally): a handler that
+   invalidates only under some condition on the request (e.g. only for REVOKE) counts as not
+   invalidating, and the theorems about dead credentials then fail. *)
+Definition is_inv_sess (a : atom) := match a with AInvSess => true | _ => false end.
+Definition is_inv_login (a : atom) := match a with AInvLogin => true | _ => false end.
+Definition always_runs (rpc : string) (p : atom -> bool) : bool :=
+  match find (fun g => String.eqb (gt_svc g) "ImmuService" && String.eqb (gt_rpc g) rpc) gates with
+  | Some g => existsb (fun s => match g_when s with [] => p (g_atom s) | _ => false end) (gt_steps g)
+  | None => false
+  end.
+Definition deact_closes_sessions : bool := Eval vm_compute in always_runs "SetActiveUser" is_inv_sess.
+Definition deact_drops_login : bool := Eval vm_compute in always_runs "SetActiveUser" is_inv_login.
+Definition reperm_closes_sessions : bool := Eval vm_compute in always_runs "ChangePermission" is_inv_sess.
+Definition reperm_drops_login : bool := Eval vm_compute in always_runs "ChangePermission" is_inv_login.
+
 Inductive cred := CrNone | CrSessOk | CrSessGone | CrTokOk | CrTokExpired | CrTokNotLogged.
 Definition cred_of (h : hdr) (st : sstate) : cred :=
   match h with
   | HNone => CrNone
-  | HSess => match st with SValid => CrSessOk | _ => CrSessGone end
-  | HTok => match st with SValid => CrTokOk | SExpired => CrTokExpired | _ => CrTokNotLogged end
+  | HSess =>
+      match st with
+      | SValid => CrSessOk
+      | SExpired => CrSessGone
+      | SDeact => if deact_closes_sessions then CrSessGone else CrSessOk
+      | SReperm | SLowered | SRaised => if reperm_closes_sessions then CrSessGone else CrSessOk
+      end
+  | HTok =>
+      match st with
+      | SValid => CrTokOk
+      | SExpired => CrTokExpired
+      | SDeact => if deact_drops_login then CrTokNotLogged else CrTokOk
+      | SReperm | SLowered | SRaised => if reperm_drops_login then CrTokNotLogged else CrTokOk
+      end
   | HTok2 => match st with SExpired => CrTokExpired | _ => CrTokOk end
   end.
 
@@ -197,6 +227,7 @@ Definition atom_passes (c : cx) (a : atom) : bool :=
   | ACred => negb (sstate_eqb (cx_st c) SDeact)      (* Login/OpenSession: "user is not active" *)
   | ATok => match cred_of (cx_hdr c) (cx_st c) with CrTokOk => true | _ => false end
   | ACheck ks => existsb (chk_holds c) ks
+  | AInvLogin | AInvSess | AInvKeys => true          (* not guards *)
   | ASqlRead => sql_read_allowed c
   | ASqlWrite => sql_write_allowed c
   end.
@@ -210,14 +241,20 @@ Definition ratom_passes (c : cx) (a : ratom) : bool :=
 Record rstep := mk_rstep { r_when : list cond; r_atom : ratom }.
 
 (* Login / OpenSession read the user record afresh (getValidatedUser): checks that follow see the
-   permissions as they are NOW.  SReperm means the user's permission on "own" was revoked after the
-   credential was issued (the sysadmin's cannot be changed). *)
-Definition fresh_user (c : cx) : cx :=
-  match cx_st c, cx_kind c with
-  | SReperm, KSys => c
-  | SReperm, _ => mk_cx (cx_cfg c) KNone (cx_hdr c) (cx_sel c) (cx_tgt c) (cx_st c)
-  | _, _ => c
+   permissions as they are NOW (the sysadmin's cannot be changed). *)
+Definition kind_now (k : kind) (st : sstate) : kind :=
+  match st, k with
+  | _, KSys => KSys
+  | SReperm, _ => KNone
+  | SLowered, KAdm => KRW
+  | SLowered, KRW => KRO
+  | SRaised, KNone => KRO
+  | SRaised, KRO => KRW
+  | SRaised, KRW => KAdm
+  | _, _ => k
   end.
+Definition fresh_user (c : cx) : cx :=
+  mk_cx (cx_cfg c) (kind_now (cx_kind c) (cx_st c)) (cx_hdr c) (cx_sel c) (cx_tgt c) (cx_st c).
 
 Definition is_cred_atom (a : ratom) : bool := match a with RPlain ACred => true | _ => false end.
 
@@ -425,7 +462,7 @@ Definition all_cfg := [CfgAuth; CfgMaint; CfgOpen].
 Definition all_kind := [KSys; KAdm; KRW; KRO; KNone].
 Definition all_hdr := [HNone; HSess; HTok; HTok2].
 Definition all_dbsel := [DOwn; DOther; DSystem; DNone].
-Definition all_sstate := [SValid; SExpired; SDeact; SReperm].
+Definition all_sstate := [SValid; SExpired; SDeact; SReperm; SLowered; SRaised].
 
 Definition all_cx : list cx :=
   flat_map (fun a => flat_map (fun b => flat_map (fun h => flat_map (fun d => flat_map (fun e =>
